@@ -78,10 +78,13 @@ impl Prop for C15 {
         "C15"
     }
     fn cases(&self, tier: Tier) -> u64 {
-        tier.pick(1_500, 40_000)
+        tier.pick(8_000, 200_000)
     }
     fn shards(&self) -> usize {
         1
+    }
+    fn processes(&self) -> usize {
+        8
     }
     fn watchdog(&self) -> Option<Duration> {
         Some(Duration::from_secs(60))
@@ -230,7 +233,7 @@ impl Prop for C15 {
             "interleavings are perturbed, not enumerated: the realised schedule is not reproducible, the saved case (incl. its delay plan) is the reproducible unit; absence of schedule-dependent failures is not proved".into(),
             "reference = per-day results for exactly the days of the range (shown equal to the sequential range API by C14, and compared with it literally for ranges up to 400 days)".into(),
             "termination: a run exceeding 60 s (normal < 0.5 s) is a hang only if the saved case exceeds the bound again in a fresh process".into(),
-            "cases run one at a time (the hooks are process-global)".into(),
+            "within a process cases run one at a time (the hooks are process-global); the run is split over 8 processes with different seeds".into(),
         ]
     }
 }
